@@ -14,11 +14,15 @@ CLAIMED = {
   text="Seeded simulated runs: 1-8 concurrent callers on one fresh formatter cache (and the real saveOutputs on the package-level cache) are interleaved by a PRNG-driven cooperative scheduler that owns every lock, wait-group, spawn and external-command point; the external tools are a simulated world (each tool installed / missing / probe fails / run fails, `which` present or not; all 512 worlds visited). The recorded exec history is checked: probe at most once per tool and cache, exactly one formatter run per request when usable, no run + nil error when absent, error propagated when the run fails, every request completes, lock discipline. Sampling of interleavings, not exhaustive.",
   note="Trusted: the cooperative scheduler and sync/exec replacements in simrt/ (yield points only at synchronisation and exec operations, so data races on plain memory are visible only through their consequences - the race-detector tiers cover raw races); classification of a command as probe or run by whether it names a requested file.",
   ref="3 (C20)"),
+ "C07": dict(
+  technique="deterministic simulation: map iteration order (the code's only scheduler) behind an AST-inserted seam, seeded permutation schedules vs canonical-order run; plus fresh-process sampling",
+  text="Every range over a map in the non-test gomacro packages of a scratch copy is rewritten to iterate in an order the simulator chooses. Per program (repo fixtures, corpus, synthesised multi-package modules) the canonical-order outputs of all seven targets are compared byte for byte with the outputs under seeded schedules that reverse, rotate or shuffle a random subset of sites; failures are minimised to the culpable range statement and replay exactly. A second tier runs the pristine code in fresh processes at GOMAXPROCS 1/4/16 and the real CLI, comparing hashes (probabilistic cross-check of what the seam cannot own: real map seeds, loader goroutines). Sampling over programs and schedules, not proof.",
+  note="Trusted: the instrumenter's rewrite (snapshot of the map, canonical sort by key rendering, then permutation) is a legal iteration order of the original loop as long as the loop body does not insert into or delete from the ranged map (sites that do are listed in the evidence). Pointer-value dependence is only visible through the fresh-process tier.",
+  ref="3 (C07)"),
 }
 
 BUILDING = {
  "C05": "check under construction in this session (simulated PostgreSQL); will be claimed once it runs - see DESIGN.md section 3",
- "C07": "check under construction in this session (map-order seam); will be claimed once it runs - see DESIGN.md section 3",
  "C15": "check under construction in this session (seeded math/rand harness); will be claimed once it runs - see DESIGN.md section 3",
  "C17": "check under construction in this session (file-system environment + faults); will be claimed once it runs - see DESIGN.md section 3",
 }
